@@ -191,9 +191,36 @@ class Driver:
         from oslo_utils import timeutils
         timeutils.utcnow = lambda with_timezone=False: _DRIVER.now()
         ml_utils.generate_unicode_uuid = lambda: _DRIVER.gen_uuid()
+        # column defaults captured the original uuid function at import time (workflow executions,
+        # delayed calls, ...): make them use the seeded generator too, so that every ORDER BY id is
+        # reproducible
+        import sqlalchemy as sa
+        from mistral.db.v2.sqlalchemy import models as db_models
+        from mistral.db.sqlalchemy import model_base as mb
+        for mapper in mb.MistralModelBase.registry.mappers if hasattr(mb.MistralModelBase, 'registry') else []:
+            tbl = mapper.local_table
+            if 'id' in tbl.c and tbl.c.id.default is not None and callable(getattr(tbl.c.id.default, 'arg', None)):
+                tbl.c.id.default = sa.ColumnDefault(lambda: _DRIVER.gen_uuid())
+                tbl.c.id.default._set_parent_with_dispatch(tbl.c.id)
         action_heartbeat_sender.add_action = lambda a: None
         action_heartbeat_sender.remove_action = lambda a: None
         _install_fast_schema_check()
+        # post_tx_queue logs and swallows exceptions of non-transactional operations (a lost
+        # start_task / run_action / result message): record them for the oracles
+
+        class _RecLog:
+            def __init__(self, inner):
+                self._inner = inner
+
+            def exception(self, msg, *a, **kw):
+                import sys as _sys
+                e = _sys.exc_info()[1]
+                _DRIVER.swallowed.append({'where': str(msg)[:80], 'type': type(e).__name__, 'msg': str(e)[:200]})
+                return self._inner.exception(msg, *a, **kw)
+
+            def __getattr__(self, n):
+                return getattr(self._inner, n)
+        post_tx_queue.LOG = _RecLog(post_tx_queue.LOG)
         # log every individual compare-and-swap of a workflow / task state (C03 oracle granularity)
         orig_wf_cas = db_api.update_workflow_execution_state
         orig_task_cas = db_api.update_task_execution_state
@@ -230,6 +257,7 @@ class Driver:
         self.oracle = {}                    # (tag, item, attempt) -> outcome spec
         self.calls = collections.Counter()  # (tag, item) -> attempts so far
         self.entry_errors = []              # non-declared exceptions escaping entry points / jobs
+        self.swallowed = []                 # exceptions swallowed by post_tx_queue (lost post-commit operations)
         self.event_log = []
         self.cas_log = []
         auth_context.set_ctx(self._ctx())
